@@ -305,10 +305,12 @@ type c13Limits struct {
 	nRandom      int
 	maxKeys      int
 	maxCuts      int
+	shard, of    int
 }
 
 func (t *c13Target) limits(l c13Limits) *c13Target {
 	t.ExhaustBelow, t.NRandom, t.MaxKeys, t.MaxCuts = l.exhaustBelow, l.nRandom, l.maxKeys, l.maxCuts
+	t.Shard, t.NShards = l.shard, l.of
 	return t
 }
 
@@ -1104,7 +1106,7 @@ func c13EpochTargets(f *c13Fixtures) []*c13Target {
 			idx = c13Limits{exhaustBelow: 1 << 14}
 			idxRemote = c13Limits{exhaustBelow: int64(ev.Pick(0, 1<<14)), nRandom: ev.Pick(30, 0), maxCuts: ev.Pick(120, 0)}
 			big = c13Limits{nRandom: ev.Pick(30, 400), maxCuts: ev.Pick(120, 1500)}
-			bigRemote = c13Limits{nRandom: ev.Pick(10, 100), maxCuts: ev.Pick(40, 400)}
+			bigRemote = c13Limits{nRandom: ev.Pick(8, 100), maxCuts: ev.Pick(25, 400)}
 			gs = c13Limits{exhaustBelow: int64(ev.Pick(512, 1<<14)), nRandom: ev.Pick(60, 0), maxCuts: ev.Pick(300, 0)}
 		case "small":
 			car = c13Limits{nRandom: ev.Pick(100, 2000), maxCuts: ev.Pick(500, 12000), maxKeys: ev.Pick(80, 0)}
@@ -1112,19 +1114,29 @@ func c13EpochTargets(f *c13Fixtures) []*c13Target {
 			idx = c13Limits{nRandom: ev.Pick(60, 1500), maxCuts: ev.Pick(250, 8192), maxKeys: ev.Pick(60, 0), exhaustBelow: int64(ev.Pick(0, 8192))}
 			idxRemote = c13Limits{nRandom: ev.Pick(20, 300), maxCuts: ev.Pick(80, 1500), maxKeys: ev.Pick(40, 0)}
 			big = c13Limits{nRandom: ev.Pick(30, 400), maxCuts: ev.Pick(100, 1500), maxKeys: ev.Pick(60, 0)}
-			bigRemote = c13Limits{nRandom: ev.Pick(10, 100), maxCuts: ev.Pick(30, 400), maxKeys: ev.Pick(40, 0)}
+			bigRemote = c13Limits{nRandom: ev.Pick(4, 100), maxCuts: ev.Pick(15, 400), maxKeys: ev.Pick(40, 0)}
 			gs = c13Limits{nRandom: ev.Pick(40, 800), maxCuts: ev.Pick(200, 5000), maxKeys: ev.Pick(40, 0)}
 		default: // medium
 			car = c13Limits{nRandom: ev.Pick(60, 1500), maxCuts: ev.Pick(250, 6000), maxKeys: ev.Pick(60, 400)}
-			carRemote = c13Limits{nRandom: ev.Pick(20, 300), maxCuts: ev.Pick(80, 1200), maxKeys: ev.Pick(40, 200)}
+			carRemote = c13Limits{nRandom: ev.Pick(8, 300), maxCuts: ev.Pick(30, 1200), maxKeys: ev.Pick(30, 200)}
 			idx = c13Limits{nRandom: ev.Pick(40, 1000), maxCuts: ev.Pick(180, 5000), maxKeys: ev.Pick(60, 400)}
-			idxRemote = c13Limits{nRandom: ev.Pick(10, 200), maxCuts: ev.Pick(50, 1000), maxKeys: ev.Pick(30, 200)}
+			idxRemote = c13Limits{nRandom: ev.Pick(6, 200), maxCuts: ev.Pick(24, 1000), maxKeys: ev.Pick(20, 200)}
 			big = c13Limits{nRandom: ev.Pick(20, 300), maxCuts: ev.Pick(70, 1000), maxKeys: ev.Pick(60, 400)}
-			bigRemote = c13Limits{nRandom: ev.Pick(5, 100), maxCuts: ev.Pick(20, 300), maxKeys: ev.Pick(30, 200)}
+			bigRemote = c13Limits{nRandom: ev.Pick(2, 100), maxCuts: ev.Pick(8, 300), maxKeys: ev.Pick(20, 200)}
 			gs = c13Limits{nRandom: ev.Pick(30, 600), maxCuts: ev.Pick(120, 3000), maxKeys: ev.Pick(40, 300)}
 		}
-		t, err := c13EpochTarget(f, e, c13EpochRole{role: "car", kind: "car"}, car)
-		add("car", t, err)
+		var t *c13Target
+		var err error
+		nsh := 1
+		if e.Name == "tiny" {
+			nsh = 4 // every offset of the CAR, one epoch load per cut: spread over 4 workers
+		}
+		for sh := 0; sh < nsh; sh++ {
+			lim := car
+			lim.shard, lim.of = sh, nsh
+			t, err = c13EpochTarget(f, e, c13EpochRole{role: "car", kind: "car"}, lim)
+			add("car", t, err)
+		}
 		t, err = c13EpochTarget(f, e, c13EpochRole{role: "car", kind: "car", remote: true}, carRemote)
 		add("car", t, err)
 		for _, rk := range [][2]string{{"cid_to_offset_and_size", "cid-to-offset-and-size"}, {"slot_to_cid", "slot-to-cid"}, {"sig_to_cid", "sig-to-cid"}} {
